@@ -66,6 +66,28 @@ def comparators(P, R, rule='C19.ARITH.1'):
                             bad.append(sx(x))
             R.ob(rule, not bad, s, 'comparator %s returns %s' % (f.name, 'a three-way result that cannot overflow' if not bad else 'the difference %s, which has the wrong sign on overflow' % bad[0]),
                  key='return:%s' % ('sub' if bad else 'ok'))
+    # a comparator can say "equal": some return value is (or can evaluate to) 0 - a constant 0, a conditional with a 0
+    # arm, a library comparison or a difference.  One that never returns 0 makes every look-up of a present key fail.
+    for f in fns.values():
+        def can_zero(e, depth=0):
+            if not isinstance(e, dict) or depth > 4:
+                return False
+            if const_of(e) == 0:
+                return True
+            if isinstance(const_of(e), int):
+                return False
+            if e.get('k') == 'cond':
+                return can_zero(e.get('t'), depth + 1) or can_zero(e.get('f'), depth + 1)
+            if e.get('k') == 'callref':
+                return True
+            if e.get('k') == 'bin' and e.get('op') in ('-', '^'):
+                return True
+            if is_var(e):
+                return any(can_zero(d.ev.get('rhs') or d.ev.get('init'), depth + 1) for d in f.local_defs(e['name'])) or not f.local_defs(e['name'])
+            return e.get('k') == 'bin' and e.get('op') in ('==', '!=', '<', '>', '<=', '>=', '&&', '||')
+        rets = [s for s in f.sites() if s.ev['k'] == 'ret' and s.ev.get('val') is not None]
+        if rets:
+            R.ob(rule, any(can_zero(s.ev['val']) for s in rets), rets[0], 'comparator %s has a result for equal keys (some return can be 0)' % f.name, key='can-equal:%s' % f.name)
     # pointer keys are ordered as addresses: an ordering comparison of pointer-valued operands is not made through a
     # conversion to a signed integer type (which puts the upper half of the address space first)
     from .. import numeric as _num
@@ -262,6 +284,8 @@ def count_paths(P, R, rule='C19.MPT.1', disp=None):
                         if is_field(l, 'count', 'set') and is_var(r) and numeric.type_range(r.get('t', '')):
                             bt = numeric.type_range(r['t'])
                             R.ob(rule, bool(a) and a[0] <= bt[0] and a[1] >= bt[1], f, 'the element count is kept in a type (%s) as wide as the counter it is compared with in %s (%s %s)' % (ft, f.name, r['t'], r['name']), key='count-width')
+    # what a comparator returns is kept whole: no local of the container code truncates an int result
+    rules.narrowing_locals(P, R, rule, list(P.unit_fns(UNIT)))
     R.floor(rule, 5)
 
 
